@@ -770,9 +770,55 @@ class _Runner:
                     tmp.file = _FileProxy(real_file, on_exit)
             return tmp
 
+        def reader_view(fn):
+            try:
+                with open(fn, 'rb') as f_:
+                    return f_.read()
+            except (OSError, IOError):
+                return None
+
+        def traced_write_safe(*a, **kw):
+            # "A cache file is either absent or complete: a reader ... never observes a partial manifest under an
+            # instance's name": the write runs under a line tracer; before every line of fs/__init__.py and
+            # eventmgr.py it executes (each is a point where a reader may look, or the process may die) the file
+            # under the instance's own name is what it was before the write, or what it is after it.
+            # (Independent of HOW the code writes: no assumption that it goes through NamedTemporaryFile.)
+            fn = a[0] if a else kw.get('filename')
+            if not isinstance(fn, str) or os.path.dirname(fn) != cache:
+                return real_write_safe(*a, **kw)
+            views = [reader_view(fn)]
+
+            def local(frame, event, _arg):
+                if event == 'line':
+                    v_ = reader_view(fn)
+                    if v_ != views[-1]:
+                        views.append(v_)
+                return local
+
+            def tracer(frame, event, _arg):
+                if event == 'call' and frame.f_code.co_filename.endswith(('fs/__init__.py', 'eventmgr.py')):
+                    return local
+                return None
+            import sys as _sys
+            old_trace = _sys.gettrace()
+            _sys.settrace(tracer)
+            try:
+                return real_write_safe(*a, **kw)
+            finally:
+                _sys.settrace(old_trace)
+                final = reader_view(fn)
+                for v_ in views[1:]:
+                    if v_ != final and v_ != views[0]:
+                        self.hit('partial-manifest', 'write_safe',
+                                 '%s: a reader sees %r while it is being written (before: %r, after: %r)' % (
+                                     os.path.basename(fn), v_[:60] if v_ is not None else None,
+                                     views[0] and views[0][:40], final and final[:40]))
+                        break
+                run.tags.add('write-traced')
+
         def write_safe_w(*a, **kw):
             try:
-                res = real_write_safe(*a, **kw)
+                res = traced_write_safe(*a, **kw) if fault is None else real_write_safe(*a, **kw)
                 if arm['active'] and step == 6:
                     fire('after-write')
                 return res
